@@ -3,7 +3,7 @@
 From DV Require Import Base.Prelude Model.BTreeM Proofs.BTreeBase Proofs.BTreeWf Proofs.BTreeInsert
   Proofs.BTreeLookup Proofs.BTreeDelete Proofs.BTreeTop
   Model.BTreeStoreM Proofs.BTreeStore Proofs.BTreeIsolation Proofs.BTreeCursor Proofs.BTreeHistory
-  Proofs.BTreeRefine Proofs.BTreeRefine5 Proofs.BTreeRefine6 Proofs.BTreeRefine7 Proofs.BTreeRefine8.
+  Proofs.BTreeRefine Proofs.BTreeRefine5 Proofs.BTreeRefine6 Proofs.BTreeRefine7 Proofs.BTreeRefine8 Proofs.BTreeRefine9.
 
 (* _Node.search_in_node (shortcut + binary search) on a key-sorted node = linear search *)
 Theorem search_spec : forall k es, ksorted es -> search k es = Ok (lsearch k es).
@@ -215,6 +215,19 @@ Theorem cow_isolated : forall xs x w' o,
     forall fuel, abs fuel (sw_store w') (sb_root bk) = abs fuel (sw_store w) (sb_root bk).
 Proof. exact cow_isolated_full. Qed.
 Print Assumptions cow_isolated.
+
+(* Isolation node by node: after any history, one more operation leaves every NODE that any other
+   tree reaches (its footprint `fp`: the tree is represented on exactly these ids before and after)
+   literally untouched in the store - same id, creator, keys and children.  This is what keeps
+   cursors and iterators held on those other trees valid: they reference nodes and are NOT parked
+   when a different tree (a clone, or the frozen original of a clone) is mutated. *)
+Theorem cow_nodes_untouched : forall xs x w' o k bk,
+  let w := execs (mkSW [] []) xs in
+  exec w x = (w', o) -> target x <> Some k -> nth_error (sw_trees w) k = Some bk ->
+  exists fp tr, rep (sw_store w) (sb_root bk) tr fp /\ rep (sw_store w') (sb_root bk) tr fp /\
+    forall y, In y fp -> nth_error (sw_store w') y = nth_error (sw_store w) y.
+Proof. exact cow_nodes_untouched_proof. Qed.
+Print Assumptions cow_nodes_untouched.
 
 (* ... and the value-level operation of `cow_isolated` changes nothing but its target tree *)
 Theorem vexec_other : forall ts x k,
